@@ -1,12 +1,40 @@
 import Driver.Lb
 import Driver.LbSpec
+import Driver.Pollh
 import Driver.Adapter
 import Driver.Own
+import Driver.Closed
+import Driver.Stream
+import Driver.OpCache
+import Driver.Shard
+import Driver.Race
 import Netpoll.Gen.Consts
+import Driver.Dial
+import Driver.Fd
+import Driver.Mgr
+import Driver.Life
+import Driver.Srv
 def main (args : List String) : IO UInt32 := do
   match args with
   | ["lb"] => Driver.Lb.main; return 0
   | ["lbspec", ops, impl] => Driver.LbSpec.main ops impl; return 0
   | ["own"] => Driver.Own.main; return 0
+  | ["pollh", ops, impl] => Driver.Pollh.main ops impl; return 0
+  | ["opcache"] => Driver.OpCache.main; return 0
+  | ["stream"] => Driver.Stream.main; return 0
+  | ["closed"] => Driver.Closed.main; return 0
+  | ["race"] => Driver.Race.main; return 0
   | ["adapter"] => Driver.Adapter.main Netpoll.Gen.c_block4k; return 0
-  | _ => IO.eprintln "usage: npdriver lb | lbspec <ops> <impl> | adapter"; return 2
+  | ["shard", trace] => Driver.Shard.main trace false
+  | ["shard", trace, "nomodel"] => Driver.Shard.main trace true
+  | ["dial"] => Driver.Dial.main Netpoll.Dial.fixedCfg; return 0
+  | ["dial-d13"] => Driver.Dial.main Netpoll.Dial.d13Cfg; return 0
+  | ["dialspec", impl] => Driver.Dial.specMain impl; return 0
+  | ["dialadmit"] => Driver.Dial.admitMain Netpoll.Dial.fixedCfg; return 0
+  | ["fd"] => Driver.Fd.main; return 0
+  | ["mgr"] => Driver.Mgr.main; return 0
+  | ["mgrspec", ops, impl] => Driver.Mgr.specMain ops impl; return 0
+  | ["life", trace] => Driver.Life.main trace; return 0
+  | ["srv"] => Driver.Srv.main; return 0
+  | ["srvspec", ops, impl] => Driver.Srv.specMain ops impl; return 0
+  | _ => IO.eprintln "usage: npdriver <mode> ... (see lean/Driver/Main.lean)"; return 2
